@@ -119,6 +119,18 @@ def ics_pool(rng, uidheavy=False):
     pool.append(gamma.ics_event(uids[1], "Wrapped two", calprops=("UID:wrapper-uid-1",)))
     pool.append(gamma.ics_event(uids[0], "Wrapped three", calprops=("UID:wrapper-uid-2",),
                                 dtstart="20200110T100000Z", dtend="20200110T110000Z"))
+    # several VTIMEZONE blocks in one object (a flight: departure and arrival zones), before and
+    # behind the event
+    from .calcases import VTZ
+    for k, order in enumerate((["Europe/Berlin", "America/New_York"], ["Asia/Tokyo", "Europe/Berlin", "America/New_York"])):
+        lines = ["BEGIN:VCALENDAR", "VERSION:2.0", "PRODID:-//verif//flight//EN"]
+        for z in order[:-1]:
+            lines += VTZ[z]
+        lines += ["BEGIN:VEVENT", "UID:flight-%d" % k, "DTSTAMP:20200101T000000Z",
+                  "DTSTART;TZID=%s:20200301T100000" % order[0], "DTEND;TZID=%s:20200301T130000" % order[-1],
+                  "SUMMARY:Flight %d" % k, "END:VEVENT"]
+        lines += VTZ[order[-1]] + ["END:VCALENDAR"]
+        pool.append(("\r\n".join(lines) + "\r\n").encode("utf-8"))
     pool.append(gamma.ics_event(None, "no uid at all"))
     # a property that may occur only once occurs twice (servers may refuse these - but then
     # without leaving anything behind)
@@ -442,7 +454,7 @@ def run_random_session(seed, prof, frontend="wsgi", prefix="/", backend="tree", 
                 items = []
                 for _k in range(rng.randint(1, 6)):
                     cls = rng.choice(["live", "live", "live", "missing", "dup", "enc", "abs", "othercoll",
-                                      "othercoll", "outside", "coll", "malformed", "badutf"])
+                                      "othercoll", "outside", "coll", "malformed", "badutf", "dotpath", "dotpath"])
                     others = [(oc, sorted(a["members"])) for oc, a in
                               (s.events[-1]["audit"]["colls"].items() if s.events else [])
                               if oc != c and a["members"]]
@@ -450,7 +462,7 @@ def run_random_session(seed, prof, frontend="wsgi", prefix="/", backend="tree", 
                         oc, names = rng.choice(others)
                         cls = "othercoll:" + oc
                         n = rng.choice(names)
-                    elif cls in ("live", "dup", "enc", "abs") and live:
+                    elif cls in ("live", "dup", "enc", "abs", "dotpath") and live:
                         n = rng.choice(sorted(live))
                     elif cls == "coll":
                         n = ""
